@@ -295,6 +295,10 @@ func (option *Option) setDefault(value *string) error {
 	}
 
 	if err := option.Set(value); err != nil {
+		// A default which could not be applied must not keep the defaults
+		// from being looked at (and reported) again on a next parse
+		option.preventDefault = false
+
 		return err
 	}
 
